@@ -238,7 +238,14 @@ class SA:
         return s._bin(o, lambda a, b: b / a)
 
     def __pow__(s, k):
+        if isinstance(k, SA) or isinstance(k, _np.ndarray):
+            return _map2(lambda a, b: _sc(a) ** b, s, k)
         return _map(lambda x: _sc(x) ** k, s)
+
+    def __rpow__(s, b):
+        if isinstance(b, _np.ndarray):
+            return _map2(lambda a, e: _sc(a) ** e, b, s)
+        return _map(lambda x: Sc.of(b) ** _sc(x), s)
 
     def __neg__(s):
         r = _map(lambda x: -_sc(x), s)
